@@ -20,8 +20,10 @@ MANIFEST = {
             'history_refines: for every operation sequence the model and the abstract Python-list interpreter agree step by '
             'step. Tied to /repo on every run by driving the real seclist (secint, secfxp, secfld(p)) through random '
             'histories and comparing state+output after every operation with a Python list and with the Coq model and the Coq '
-            'abstract interpreter (vm_compute) on the same history; plus non-unit index vectors (model vs implementation only) '
-            'and malformed index lengths (IndexError).',
+            'abstract interpreter (vm_compute) on the same history; plus non-unit index vectors (model vs implementation only), '
+            'malformed index lengths (IndexError), comparison pairs of lengths 4..9 differing at several positions (>= 2 inside one '
+            'half of the _norm split; all six operators both ways) and histories that reuse ONE index object (unit-vector list, '
+            'secindex, secure number) across consecutive operations and two lists (the object must stay unchanged).',
     'note': 'Trusted/modelled, not verified here: runtime helpers at value level (in_prod, vector_add/sub, schur_prod, scalar_mul, '
             'sgn, ==, sum, all, if_else) and runtime.unit_vector represented by its specification uvec (C30 ties unit_vector to it); '
             'list.sort is modelled by a specification sort (runtime._sort belongs to C29); methods delegated to list (public '
@@ -268,22 +270,23 @@ def mk_ys(ti, ys, form, seclist):
     return seclist([ti.to_impl(y) for y in ys], ti.T)
 
 
-def impl_step(ti, s, c, seclist, secindex):
-    """apply concrete op c to the real seclist s; returns (s', out)"""
+def impl_step(ti, s, c, seclist, secindex, keyobj=None):
+    """apply concrete op c to the real seclist s; returns (s', out); keyobj: an already built secret
+    index object to be used instead of building a fresh one from c['key'] (index-object reuse)"""
     op = c['op']
     mpc = ti.mpc
     out = None
     try:
         if op == 'get':
-            out = ('Z', ti.open1(s[mk_key(ti, c['key'], secindex)]))
+            out = ('Z', ti.open1(s[(keyobj if keyobj is not None else mk_key(ti, c['key'], secindex))]))
         elif op == 'set':
-            s[mk_key(ti, c['key'], secindex)] = mk_val(ti, c)
+            s[(keyobj if keyobj is not None else mk_key(ti, c['key'], secindex))] = mk_val(ti, c)
         elif op == 'del':
-            del s[mk_key(ti, c['key'], secindex)]
+            del s[(keyobj if keyobj is not None else mk_key(ti, c['key'], secindex))]
         elif op == 'ins':
-            s.insert(mk_key(ti, c['key'], secindex), mk_val(ti, c))
+            s.insert((keyobj if keyobj is not None else mk_key(ti, c['key'], secindex)), mk_val(ti, c))
         elif op == 'pop':
-            out = ('Z', ti.open1(s.pop(mk_key(ti, c['key'], secindex))))
+            out = ('Z', ti.open1(s.pop((keyobj if keyobj is not None else mk_key(ti, c['key'], secindex)))))
         elif op == 'getpub':
             out = ('Z', ti.open1(s[c['i']]))
         elif op == 'setpub':
@@ -730,6 +733,94 @@ def traced_run(ti, tr, init, cops, seclist, secindex, rng):
     return res
 
 
+
+# ------------------------------------------------------------------------------------------
+# comparison pairs differing at several positions, with >= 2 differences inside one half of _norm's split
+
+def gen_cmp_pair(rng, ti):
+    lx = rng.randrange(4, 10)
+    ly = lx if rng.random() < 0.5 else rng.randrange(4, 10)
+    m = min(lx, ly)                       # _norm works on the zipped prefix of length m, split at m//2
+    x = [rng.choice(ti.pool) for _ in range(lx)]
+    y = (x + [rng.choice(ti.pool) for _ in range(ly)])[:ly]
+    h = m // 2
+    half = range(0, h) if (rng.random() < 0.5 and h >= 2) else range(h, m)
+    pos = set(rng.sample(list(half), rng.randrange(2, len(half) + 1)))
+    if rng.random() < 0.6:                # further differences anywhere
+        pos |= {rng.randrange(m) for _ in range(rng.randrange(1, 4))}
+    mode = rng.randrange(3)               # all larger / all smaller / mixed signs
+    order = sorted(ti.pool)
+    for j in pos:
+        lo = [v for v in order if v < x[j]]
+        hi = [v for v in order if v > x[j]]
+        cand = (hi or lo) if mode == 0 else (lo or hi) if mode == 1 else (lo + hi)
+        y[j] = rng.choice(cand)
+    return x, y
+
+
+# ------------------------------------------------------------------------------------------
+# histories that REUSE one Python index object across consecutive operations on one or two lists
+
+def reuse_history(rng, ti, seclist, secindex):
+    """returns (kind, bad, detail, lists) where lists = [(init, cops, impl_trace, oracle_trace)] for s and t"""
+    mpc = ti.mpc
+    L = rng.randrange(1, 8)                       # length of the index vector: insert on lists of length L-1, others on length L
+    a = rng.choice([0, L - 1, rng.randrange(L)])
+    kind = rng.choice(['vec', 'vec', 'sec', 'num'])
+    if kind == 'vec':
+        key = ['vec', unit(a, L)]
+    elif kind == 'sec':
+        off = rng.randrange(a + 1)
+        key = ['sec', off, unit(a - off, L - off)]
+    else:
+        key = ['num', a]
+    obj = mk_key(ti, key, secindex)               # built ONCE
+
+    def opened():
+        if kind == 'vec':
+            return [int(v) for v in mpc.run(mpc.output(list(obj)))] if obj else []
+        if kind == 'sec':
+            return [obj.offset, [int(v) for v in mpc.run(mpc.output(list(obj.value)))] if obj.value else []]
+        return int(mpc.run(mpc.output(obj)))
+    before = opened()
+    inits = [[rng.choice(ti.pool) for _ in range(L - 1)], [rng.choice(ti.pool) for _ in range(rng.choice([L - 1, L]))]]
+    impl = [seclist([ti.to_impl(v) for v in init], ti.T) for init in inits]
+    ref = [list(init) for init in inits]
+    cops = [[], []]
+    itr = [[], []]
+    otr = [[], []]
+    bad = None
+    for step in range(rng.randrange(2, 7)):
+        w = 0 if (step == 0 or rng.random() < 0.65) else 1
+        if step == 0 or len(ref[w]) == L - 1:
+            op = 'ins'
+        elif len(ref[w]) == L:
+            op = rng.choice(['get', 'set', 'del', 'pop', 'get', 'set'])
+        else:
+            continue
+        c = {'op': op, 'key': key}
+        if op in ('set', 'ins'):
+            c['v'] = rng.choice(ti.pool)
+            c['wrap'] = rng.random() < 0.5
+        try:
+            impl[w], out = impl_step(ti, impl[w], c, seclist, secindex, keyobj=obj)
+            st = ti.open_list(impl[w])
+        except Exception as e:   # noqa
+            st, out = None, ('Err', type(e).__name__ + ': ' + str(e)[:80])
+        ref[w], oout = oracle_step(ti, ref[w], c)
+        cops[w].append(c)
+        itr[w].append((st, out))
+        otr[w].append((list(ref[w]), oout))
+        if (st, out) != (ref[w], oout) and bad is None:
+            bad = {'list': w, 'op': op, 'step': step, 'impl': (st, out), 'python_list': (ref[w], oout)}
+            break
+    after = opened() if bad is None else None
+    if bad is None and after != before:
+        bad = {'op': 'index object modified by the callee', 'before': before, 'after': after}
+    detail = {'type': ti.name, 'key': key, 'inits': inits, 'ops_on_s': cops[0], 'ops_on_t': cops[1], 'bad': bad}
+    return kind, bad, detail, [(inits[w], cops[w], itr[w], otr[w]) for w in (0, 1) if cops[w]]
+
+
 # ------------------------------------------------------------------------------------------
 
 def run(ctx):
@@ -846,6 +937,43 @@ def run(ctx):
                           {'type': ti.name, 'init': init, 'op': c, 'impl': tr, 'expected': 'IndexError, list unchanged'})
         exprs.append('run step %s' % coq_hist(init, [c]))
         meta.append(('raw', ti, key, tr, None))
+
+    # ---- comparisons of lists of length 4..9 differing at several positions (>= 2 inside one half of the
+    #      _norm split), all six operators both ways; the opened result must be exactly Python's 0/1
+    ncmp = ctx.n(60, 400)
+    for h in range(ncmp):
+        ti = types[h % 2] if h % 6 else types[2]
+        x, y = gen_cmp_pair(rng, ti)
+        cs = CMPS if ti.kind != 'fld' else ('eq', 'ne')
+        cops = [{'op': 'cmp', 'c': cc, 'swap': sw, 'ys': y, 'yform': rng.randrange(3)} for cc in cs for sw in (False, True)]
+        itr = run_impl(ti, x, cops, seclist, secindex)
+        otr = run_oracle(ti, x, cops)
+        key = {'type': ti.name, 'x': x, 'y': y, 'cmp': 'all operators, both orders'}
+        ctx.case(key, nontrivial=True, kind='cmp multi-diff ' + ti.name)
+        d = first_diff(itr, otr)
+        if d is not None:
+            c = cops[d]
+            ctx.violation('comparison-mismatch %s %s%s len %d/%d' % (ti.name, c['c'], ' swapped' if c['swap'] else '', len(x), len(y)),
+                          {'type': ti.name, 'x': x, 'y': y, 'operator': c['c'], 'swapped': c['swap'],
+                           'impl': itr[d] if d < len(itr) else None, 'python': otr[d]})
+            continue
+        exprs.append('let x := %s in let h := [%s] in (run step x h, run pystep x h, valid_histb x h)' % (
+            zlist(x), '; '.join(coq_op(c) for c in cops)))
+        meta.append(('hist', ti, key, itr, otr))
+
+    # ---- the same Python index object reused across consecutive operations (and across two lists)
+    nreuse = ctx.n(90, 500)
+    for h in range(nreuse):
+        ti = types[h % 3]
+        kind, bad, detail, lists = reuse_history(rng, ti, seclist, secindex)
+        ctx.case({k: detail[k] for k in ('type', 'key', 'inits', 'ops_on_s', 'ops_on_t')}, nontrivial=True, kind='index object reuse/' + kind)
+        if bad is not None:
+            ctx.violation('index-object-reuse %s kind=%s op=%s' % (ti.name, kind, bad['op']), detail)
+            continue
+        for (init, cops, itr, otr) in lists:
+            exprs.append('let x := %s in let h := [%s] in (run step x h, run pystep x h, valid_histb x h)' % (
+                zlist(init), '; '.join(coq_op(c) for c in cops)))
+            meta.append(('hist', ti, {'type': ti.name, 'init': init, 'ops': [coq_op(c) for c in cops], 'reuse': True}, itr, otr))
 
     # ---- evaluate model and abstract interpreter in Coq
     if ok:
